@@ -44,7 +44,7 @@ type World struct {
 	effects      map[*ssa.Function]*Effects
 	effectRounds int
 	errRes       *errResolver
-	addrTaken map[*ssa.Function]bool
+	addrTaken    map[*ssa.Function]bool
 	baseMem      map[string]AV
 }
 
@@ -372,7 +372,16 @@ func (w *World) paramFuncs(g *callgraph.Graph, fn *ssa.Function, prm *ssa.Parame
 		if idx >= len(args) {
 			return nil
 		}
-		switch a := args[idx].(type) {
+		av := args[idx]
+		if ct, ok := av.(*ssa.ChangeType); ok {
+			av = ct.X
+		}
+		switch a := av.(type) {
+		case *ssa.Const:
+			if !a.IsNil() {
+				return nil
+			}
+			// a nil function value binds no callee
 		case *ssa.Function:
 			out[a] = true
 		case *ssa.MakeClosure:
@@ -392,9 +401,6 @@ func (w *World) paramFuncs(g *callgraph.Graph, fn *ssa.Function, prm *ssa.Parame
 		default:
 			return nil
 		}
-	}
-	if len(out) == 0 {
-		return nil
 	}
 	return out
 }
